@@ -230,6 +230,8 @@ type instrNode struct {
 	desc     string
 	// callsFn reports how often the instruction's callback has been invoked so far (every recorded call)
 	callsFn func() int
+	// builtinEnum: the built-in ToUpper applied to an enum column (class of known finding K4 under FilteredApply)
+	builtinEnum bool
 }
 
 func (n instrNode) calls() int {
@@ -440,6 +442,7 @@ func genInstr(r *hlib.Rng, cols []genCol, avail *[]genCol, malformed bool) instr
 			name = "ToLower"
 		}
 		n.src1 = src
+		n.builtinEnum = name == "ToUpper" && kindOf(src) == "enum"
 		n.goI = qframe.Instruction{Fn: name, DstCol: n.dst, SrcCol1: src}
 		n.coqFn = func() string { return "(FBuiltin " + hlib.Str(name) + ")" }
 		n.desc = n.dst + " := " + name + "(" + src + ")"
@@ -752,6 +755,13 @@ func applyCase(r *hlib.Rng, s *hlib.Suite) {
 	case 0: // FilteredApply
 		cl := genClause(r, cols, 2, malformed && r.Chance(1, 2))
 		desc := map[string]interface{}{"op": "filteredapply", "clause": cl.String(), "instructions": descs, "derivation": hist, "props": []string{"C01", "C06", "C10", "C02"}}
+		for _, in := range instrs {
+			if in.builtinEnum {
+				// known finding K4: the enum column's ToUpper ignores the row index
+				desc["class"] = "filteredapply-enum-toupper"
+				desc["props"] = []string{"C06"}
+			}
+		}
 		for _, dsc := range descs {
 			if strings.Contains(dsc, " := col ") {
 				desc["class"] = "filteredapply-columnname-copy"
